@@ -6,21 +6,21 @@ from . import ser
 from .corr import Case
 from .inputs import try_parse
 
-MODELLED = ["cleanup", "unused", "projection"]
+MODELLED = ["cleanup", "unused", "projection", "duplication", "symmetry", "minmax_chains", "inline"]
 ALL = ["cleanup", "unused", "duplication", "symmetry", "minmax_chains", "sum_chains", "math", "inline", "projection"]
 
 
 class ApiOptimize:
     name = "api_optimize"
     imports = ["Model.Api", "Model.Corr"]
-    source = "ngo.api.optimize for every subset of {cleanup, unused, projection} (all other traits off)"
+    source = "ngo.api.optimize for subsets of the seven traits whose passes are composed in Model/Api.v (sum_chains and math off)"
 
     def cases(self, inputs, rng):
         from ngo.api import optimize
         from ngo.utils.ast import Predicate
         from ngo.utils.globals import auto_detect_input, auto_detect_output
         logging.disable(logging.CRITICAL)
-        subsets = [list(c) for r in range(0, 4) for c in itertools.combinations(MODELLED, r)]
+        subsets = [list(c) for r in range(0, len(MODELLED) + 1) for c in itertools.combinations(MODELLED, r)]
         progs = []
         for inp in inputs:
             prg = try_parse(inp["text"])
